@@ -15,6 +15,7 @@ import operator
 from copy import copy
 from collections.abc import Iterator
 from decimal import Decimal, DivisionByZero, InvalidOperation
+from fractions import Fraction
 from typing import cast, NoReturn
 
 import elementpath.aliases as ta
@@ -686,17 +687,15 @@ def evaluate__idiv_operator(self: XPathToken, context: ta.ContextType = None) ->
         raise self.error('XPTY0004', err) from None
 
     try:
-        result = op1 // op2
-    except (ZeroDivisionError, DivisionByZero, InvalidOperation):
+        if math.isinf(op2):
+            return 0
+        # The exact quotient of the two values, truncated toward zero: floor division
+        # of floats is not exact and Decimal division depends on the context precision.
+        return math.trunc(Fraction(op1) / Fraction(op2))
+    except ZeroDivisionError:
         if isinstance(context, XPathSchemaContext):
             return 1
         raise self.error('FOAR0001') from None
-    else:
-        if result >= 0 or isinstance(op1, Decimal) or \
-                isinstance(op2, Decimal) or result * op2 == op1:
-            return int(result)
-        else:
-            return int(result) + 1
 
 
 # Resolve the intrinsic ambiguity of some infix operators
